@@ -746,3 +746,111 @@ impl<T> Iterator for RawDrain<'_, T> {
 
 impl<T> ExactSizeIterator for RawDrain<'_, T> {}
 impl<T> FusedIterator for RawDrain<'_, T> {}
+
+/// Read-only snapshot of the resize state (verification hook, feature `verif-hooks`).
+#[cfg(feature = "verif-hooks")]
+#[derive(Clone, Copy, Debug, PartialEq, Eq)]
+pub struct VerifState {
+    /// The per-insert move quota compiled into this build.
+    pub r: usize,
+    /// Elements in the main table.
+    pub main_len: usize,
+    /// `capacity()` of the main table.
+    pub main_capacity: usize,
+    /// Buckets of the main table.
+    pub main_buckets: usize,
+    /// Whether an old table exists.
+    pub split: bool,
+    /// Elements in the old table (0 if none).
+    pub old_len: usize,
+    /// Buckets of the old table (0 if none).
+    pub old_buckets: usize,
+    /// Elements the cached old-table iterator believes are still to come (0 if none).
+    pub cursor_remaining: usize,
+    /// Whether the cached iterator would yield exactly the full buckets of the old table.
+    /// Only computed when `cursor_remaining == old_len`; `false` otherwise.
+    pub cursor_exact: bool,
+}
+
+/// Where an element lives (verification hook, feature `verif-hooks`).
+#[cfg(feature = "verif-hooks")]
+#[derive(Clone, Copy, Debug, PartialEq, Eq)]
+pub enum VerifLoc {
+    /// No such element.
+    Absent,
+    /// In the main table.
+    Main,
+    /// In the old table.
+    Old {
+        /// Bucket index in the old table.
+        bucket: usize,
+        /// Position in the cached iterator's remaining sequence, if it will be yielded.
+        rank: Option<usize>,
+    },
+}
+
+#[cfg(feature = "verif-hooks")]
+impl<T> RawTable<T> {
+    pub(crate) fn verif_state(&self) -> VerifState {
+        let mut st = VerifState {
+            r: R,
+            main_len: self.table.len(),
+            main_capacity: self.table.capacity(),
+            main_buckets: self.table.buckets(),
+            split: false,
+            old_len: 0,
+            old_buckets: 0,
+            cursor_remaining: 0,
+            cursor_exact: false,
+        };
+        if let Some(ref lo) = self.leftovers {
+            st.split = true;
+            st.old_len = lo.table.len();
+            st.old_buckets = lo.table.buckets();
+            st.cursor_remaining = lo.items.len();
+            if st.cursor_remaining == st.old_len {
+                // Compare the bucket sequence of the cached iterator with a fresh scan.
+                // Both walk the table in the same order, so they must agree pairwise.
+                let mut exact = true;
+                let mut fresh = unsafe { lo.table.iter() };
+                for b in lo.items.clone() {
+                    match fresh.next() {
+                        Some(f) => unsafe {
+                            if lo.table.bucket_index(&f) != lo.table.bucket_index(&b) {
+                                exact = false;
+                                break;
+                            }
+                        },
+                        None => {
+                            exact = false;
+                            break;
+                        }
+                    }
+                }
+                st.cursor_exact = exact;
+            }
+        }
+        st
+    }
+
+    pub(crate) fn verif_locate(&self, hash: u64, eq: impl FnMut(&T) -> bool) -> VerifLoc {
+        match self.find(hash, eq) {
+            None => VerifLoc::Absent,
+            Some(b) if b.in_main => VerifLoc::Main,
+            Some(b) => {
+                let lo = self.leftovers.as_ref().unwrap();
+                let bucket = unsafe { lo.table.bucket_index(&b.bucket) };
+                let mut rank = None;
+                if lo.items.len() == lo.table.len() {
+                    for (i, c) in lo.items.clone().enumerate() {
+                        if unsafe { lo.table.bucket_index(&c) } == bucket {
+                            rank = Some(i);
+                            break;
+                        }
+                    }
+                }
+                VerifLoc::Old { bucket, rank }
+            }
+        }
+    }
+}
